@@ -1,12 +1,12 @@
 ----------------------------- MODULE MC_Grouping -----------------------------
 (* Exhaustive inputs for Grouping.tla: NP paths over explicit byte strings (all zero but at most one      *)
 (* flipped byte per identity, at any offset), every hard-link structure, a common length L (one identity   *)
-(* may be one byte longer), every filter configuration, at most one unreadable identity; and every order  *)
+(* may be one byte longer), every filter configuration, unreadable paths; and every order  *)
 (* of the hashing tasks.  The window classes are computed from the bytes, so the theorems say that the     *)
 (* windows and stage-skipping rules of the code separate exactly the files that differ.                    *)
 EXTENDS Grouping
 
-CONSTANTS NP, Lens, PLen, PMin, SLen, TLen, Kinds, Rfs, Isos, Skips, Bads
+CONSTANTS NP, Lens, PLen, PMin, SLen, TLen, Kinds, Rfs, Isos, Skips, Bads, Longs, RootSet
 
 Pow2(n) == 2 ^ n
 \* bytes of an identity: zero everywhere except a 1 at offset flip (0 = no flip)
@@ -23,23 +23,22 @@ InoMaps == {m \in [1..NP -> 1..NP] : \A f \in 1..NP : m[f] <= 1 + (IF f = 1 THEN
 Empty == [files |-> <<>>, cfg |-> [kind |-> "over", rf |-> 1, isolate |-> FALSE, matchLinks |-> FALSE, skipContent |-> FALSE, P |-> PLen, T |-> TLen],
           bad |-> {}, L |-> 0, inos |-> <<>>]
 
-MCInit == /\ inp = Empty /\ stage = "pick1" /\ phase = "begin" /\ groups = {} /\ todo = {} /\ got = {} /\ pass = {}
+MCInit == /\ inp = Empty /\ stage = "pick1" /\ phase = "begin" /\ groups = {} /\ todo = {} /\ got = {} /\ pass = {} /\ failed = {}
 Pick1 == /\ stage = "pick1"
          /\ \E k \in Kinds, rf \in Rfs, iso \in Isos, ml \in BOOLEAN, sc \in Skips, L \in Lens, m \in InoMaps :
                inp' = [Empty EXCEPT !.cfg = [kind |-> k, rf |-> rf, isolate |-> iso, matchLinks |-> ml, skipContent |-> sc, P |-> PLen, T |-> TLen],
                                     !.L = L, !.inos = m]
-         /\ stage' = "pick2" /\ UNCHANGED <<phase, groups, todo, got, pass>>
+         /\ stage' = "pick2" /\ UNCHANGED <<phase, groups, todo, got, pass, failed>>
 Pick2 == /\ stage = "pick2"
-         /\ \E flips \in [1..NP -> 0..(inp.L + 1)], long \in BOOLEAN, roots \in [1..NP -> IF inp.cfg.isolate THEN 0..2 ELSE {0}], bad \in Bads :
+         /\ \E flips \in [1..NP -> 0..(inp.L + 1)], long \in Longs, roots \in [1..NP -> IF inp.cfg.isolate THEN RootSet ELSE {0}], bad \in Bads :
                LET lenOf(i) == IF long /\ i = Max({inp.inos[f] : f \in 1..NP}) THEN inp.L + 1 ELSE inp.L IN
                /\ \A i \in 1..NP : flips[i] <= lenOf(i)
                /\ \A i \in 1..NP : (i \notin {inp.inos[f] : f \in 1..NP}) => flips[i] = 0         \* unused identities: one representative
-               /\ bad \subseteq {inp.inos[f] : f \in 1..NP}
                /\ inp' = [inp EXCEPT !.files = [f \in 1..NP |-> LET i == inp.inos[f] IN
                                                   [ino |-> i, root |-> roots[f], len |-> lenOf(i), pk |-> PK(lenOf(i), flips[i]),
                                                    sk |-> SK(lenOf(i), flips[i]), ck |-> CK(lenOf(i), flips[i])]],
                                      !.bad = bad]
-         /\ stage' = "size" /\ UNCHANGED <<phase, groups, todo, got, pass>>
+         /\ stage' = "size" /\ UNCHANGED <<phase, groups, todo, got, pass, failed>>
 MCNext == Pick1 \/ Pick2 \/ Next0
 MCSpec == MCInit /\ [][MCNext]_vars
 
